@@ -368,7 +368,13 @@ class Run:
         self.ops.append(op_)
         h = HANDLERS[kind]
         self.profile.before_op(self, op_)
-        res = h(self, op_)
+        try:
+            res = h(self, op_)
+        except Exception as e:  # noqa
+            if type(e).__name__ == "StopRun":
+                self.stats["op:" + kind] += 1
+                self.log(self.step, kind, "experiment")
+            raise
         self.last_kind = kind
         self.profile.after_op(self, op_, res)
         self.stats["op:" + kind] += 1
